@@ -259,21 +259,22 @@ void TensorCopy(tensor* asrc, tensor** adst)
   }
   else{
     if(asrc->order != (*adst)->order){
-      /* resize  the order */
-      (*adst)->m = xrealloc((*adst)->m, sizeof(tensor*)*asrc->order);
+      /* different number of blocks: rebuild the destination blocks with the shapes of the source */
+      for(k = 0; k < (*adst)->order; k++){
+        if((*adst)->m[k] != NULL)
+          DelMatrix(&(*adst)->m[k]);
+      }
+      (*adst)->m = xrealloc((*adst)->m, sizeof(matrix*)*asrc->order);
+      (*adst)->order = asrc->order;
+      for(k = 0; k < asrc->order; k++){
+        NewMatrix(&((*adst)->m[k]), asrc->m[k]->row, asrc->m[k]->col);
+      }
     }
-
-    /*chek and resize the matrix for each order if is necessary */
-    for(k = 0; k < asrc->order; k++){
-      if(asrc->m[k]->row != (*adst)->m[k]->row || asrc->m[k]->col != (*adst)->m[k]->col){
-
-        (*adst)->m[k]->row = asrc->m[k]->row;
-        (*adst)->m[k]->col = asrc->m[k]->col;
-
-        (*adst)->m[k]->data = xrealloc((*adst)->m[k]->data, sizeof(double*)*asrc->m[k]->row);
-
-        for(i = 0; i < asrc->m[k]->row; i++){
-          (*adst)->m[k]->data[i] = xrealloc((*adst)->m[k]->data[i], sizeof(double)*asrc->m[k]->col);
+    else{
+      /* same number of blocks: resize the blocks whose shape differs */
+      for(k = 0; k < asrc->order; k++){
+        if(asrc->m[k]->row != (*adst)->m[k]->row || asrc->m[k]->col != (*adst)->m[k]->col){
+          ResizeMatrix((*adst)->m[k], asrc->m[k]->row, asrc->m[k]->col);
         }
       }
     }
